@@ -18,7 +18,14 @@ ASSUMPTIONS = ['np.digitize on increasing edges returns the number of edges <= k
 
 
 def fmtq(x):
-    return acclib.fmt_frac(Fraction(float(x)))
+    return acclib.fmt_frac(Fraction(x) if isinstance(x, int) else Fraction(float(x)))
+
+
+def showval(acc):
+    try:
+        return repr(acc.value)
+    except Exception as e:  # noqa
+        return 'raises ' + type(e).__name__
 
 
 def static_cases(ctx):
@@ -39,8 +46,14 @@ def static_cases(ctx):
                 keys.append(rng.choice([edges[0] - 1.5, edges[-1] + 0.5, edges[-1] + 7]))
             else:
                 keys.append(rng.randint(-24, 24) / 4)
-        cls = rng.choice(['Counter', 'Mean', 'CacheAccumulator'])
-        kw = {'length': 3} if cls == 'CacheAccumulator' else {}
+        if rng.random() < 0.15:
+            # integer keys and edges of epoch-nanosecond size (above 2**53): exact in int64, not in float64
+            t0 = 1700000000123456789
+            edges = [t0 + e * 10 ** 9 for e in range(ne)]
+            keys = [rng.choice(edges) + rng.choice([-1, 0, 1, -100, 100, 5 * 10 ** 8]) for _ in range(n)]
+        # bins of accumulators with nested / mutable members too: every bin must own its state
+        cls = rng.choice(['Counter', 'Mean', 'CacheAccumulator', 'Variance', 'Maximum', 'CacheMaximum', 'RunningVariance'])
+        kw = {'length': 3} if cls in ('CacheAccumulator', 'CacheMaximum') else ({'lifetime': 3} if cls == 'RunningVariance' else {})
         bs = A.BinSorter(edges, getattr(A, cls), kwargs=kw, key=lambda o: o[0], datakey=lambda o: o[1])
         case = dict(static=True, edges=edges, keys=keys, cls=cls)
         nb = len(edges) - 1
@@ -75,9 +88,9 @@ def static_cases(ctx):
                 ref = getattr(A, cls)(**kw)
                 for d in bins[b]:
                     ref.accumulate(d)
-                if ref.n != acc.n or repr(ref.value) != repr(acc.value):
-                    ctx.fail('binsorter-bin-state', 'bin %d holds %r (n=%d), a stand-alone %s fed the bin\'s data holds %r (n=%d)' % (
-                        b, acc.value, acc.n, cls, ref.value, ref.n), case)
+                if ref.n != acc.n or showval(ref) != showval(acc):
+                    ctx.fail('binsorter-bin-state', 'bin %d holds %s (n=%d), a stand-alone %s fed the bin\'s data holds %s (n=%d)' % (
+                        b, showval(acc), acc.n, cls, showval(ref), ref.n), case)
                     break
         on_edge = any(k in edges for k in keys) or any(k < edges[0] or k >= edges[-1] for k in keys)
         ctx.case(('static', edges, keys, cls), on_edge and n >= 3, sample=case if n <= 8 else None)
